@@ -16,6 +16,8 @@ const MEM_LIMIT: usize = 64 << 20;
 const KINDS: [char; 10] = ['A', 'P', 'S', 'M', 'X', 'B', 'L', 'U', 'H', 'R'];
 const WORK_MS: u64 = 200;
 const BIG_REPLY: usize = 20 << 20;
+const FILL: usize = 30 << 20;
+const MEM_KINDS: [char; 3] = ['A', 'F', 'E'];
 const IDLE_KINDS: [char; 4] = ['A', 'W', 'G', 'g'];
 const MARKER: &str = "c18-deliberate-panic";
 
@@ -29,6 +31,10 @@ pub enum Req {
     Exit(i32, i64),
     Big(Vec<u8>, i64),
     BigReply(usize, i64),
+    /// a legal allocation well inside the memory limit
+    Fill(usize, i64),
+    /// holds `from` bytes and asks for `to` with a fallible call: the limit may refuse, the request answers either way
+    Grow(usize, usize, i64),
 }
 
 #[derive(Serialize, Deserialize, Debug)]
@@ -80,6 +86,15 @@ impl Service for TestService {
                 let v: Vec<u8> = vec![1u8; n];
                 Res { value: tag, pid, len: v.len(), sum: v.iter().map(|x| *x as u64).sum(), data: vec![] }
             }
+            Req::Fill(n, tag) => {
+                let v: Vec<u8> = vec![1u8; n];
+                Res { value: tag, pid, len: v.len(), sum: v.iter().map(|x| *x as u64).sum(), data: vec![] }
+            }
+            Req::Grow(from, to, tag) => {
+                let mut v: Vec<u8> = vec![1u8; from];
+                let grown = v.try_reserve_exact(to - from).is_ok();
+                Res { value: if grown { tag } else { -1 }, pid, len: v.len(), sum: 0, data: vec![] }
+            }
             Req::Exit(code, _tag) => std::process::exit(code),
             Req::Big(data, tag) => Res { value: tag, pid, len: data.len(), sum: data.iter().map(|x| *x as u64).sum(), data: vec![] },
             // a small request with a large reply (larger than any sensible frame cap a reader might apply)
@@ -123,6 +138,10 @@ pub fn seq_main(kinds: &str, gap_ms: u64) -> ! {
                     continue;
                 }
                 'M' => Req::Alloc(MEM_LIMIT * 4, tag),
+                // legal: 30 MiB of a 64 MiB limit
+                'F' => Req::Fill(FILL, tag),
+                // holds 40 MiB and asks for 60 MiB with try_reserve: refused or granted, answered either way
+                'E' => Req::Grow(40 << 20, 60 << 20, tag),
                 'X' => Req::Exit(3, tag),
                 _ => Req::Big(big_payload(i), tag),
             };
@@ -171,10 +190,20 @@ impl C18 {
         let idle_len = if tier == "thorough" { 3 } else { 2 };
         fams.add(&format!("idle gaps: sequences of length {} over normal / slow-but-legal / long idle / short idle (+ a slow and a normal request)", idle_len), vec![4u64.pow(idle_len)]);
         fams.add("long panic reports in a four-byte script at all four byte alignments (+ two normal requests)", vec![4]);
+        // requests that use much memory legally, or are refused memory and say so themselves
+        let mem_len = if tier == "thorough" { 4 } else { 3 };
+        fams.add(&format!("memory: sequences of length {} over normal / 30 MiB fill / refused growth (+ a fill and a normal request)", mem_len), vec![3u64.pow(mem_len)]);
         C18 { fams, lens }
     }
     fn seq(&self, idx: u64) -> (String, u64) {
         let (f, d) = self.fams.locate(idx);
+        if f == self.lens.len() + 2 {
+            let l = if self.lens.len() > 2 { 4 } else { 3 };
+            let digits = decode(d[0], &vec![3; l]);
+            let mut s: String = digits.iter().map(|x| MEM_KINDS[*x as usize]).collect();
+            s.push_str("FA");
+            return (s, 0);
+        }
         if f == self.lens.len() + 1 {
             return (format!("{}AA", ['U', '1', '2', '3'][d[0] as usize]), 0);
         }
@@ -323,6 +352,22 @@ fn judge(kinds: &str, lines: &[Value]) -> Vec<(String, String)> {
                 }
                 current_pid = Some(pid);
             }
+            'F' | 'E' => {
+                let own = if k == 'F' {
+                    l["value"].as_i64() == Some(tag) && l["len"].as_u64() == Some(FILL as u64) && l["sum"].as_u64() == Some(FILL as u64)
+                } else {
+                    // refused (-1) or granted (tag): both are the request's own answer
+                    l["value"].as_i64() == Some(-1) || l["value"].as_i64() == Some(tag)
+                };
+                if !(res == "ok" && own) {
+                    bad.push((
+                        format!("{} after [{}] is not served with its own result", if k == 'F' { "a legal 30 MiB allocation (limit 64 MiB)" } else { "a request that handles a refused allocation itself" }, mem_class(&ks[..i])),
+                        ctx("memory given back by earlier requests - or never granted to them - must be available again"),
+                    ));
+                    continue;
+                }
+                current_pid = Some(l["pid"].as_u64().unwrap_or(0) as u32);
+            }
             'W' => {
                 if !(res == "ok" && l["value"].as_i64() == Some(tag)) {
                     bad.push((
@@ -396,6 +441,16 @@ fn judge(kinds: &str, lines: &[Value]) -> Vec<(String, String)> {
     bad
 }
 
+fn mem_class(prefix: &[char]) -> &'static str {
+    if prefix.contains(&'E') {
+        "a refused growth"
+    } else if prefix.contains(&'F') {
+        "earlier fills"
+    } else {
+        "normal requests"
+    }
+}
+
 fn idle_class(prefix: &[char]) -> &'static str {
     match prefix.last() {
         Some('G') => "an idle time longer than the limit",
@@ -423,13 +478,13 @@ impl Space for C18 {
         Meta {
             id: "C18",
             level: "fault_enumeration",
-            rule: format!("every sequence of length <= {} over the ten request kinds {{normal, panic, overrun of the time limit by 10x, overrun by 1.5x (its reply arrives late), allocation beyond the memory limit, child exit, 2 MiB payload, panic with a 12 kB report in a four-byte script (also at each of the four byte alignments), request payload larger than the child's memory limit, small request with a 20 MiB reply}}, each followed by two normal requests, x gap in {{0 ms, 400 ms}} after each fault; plus every sequence over {{normal, slow-but-legal (200 ms), idle 1.5x the limit, idle 0.5x the limit}} followed by a slow and a normal request (idle time between requests must not count against the limit); run against the real rink_sandbox::Sandbox with real child processes (one parent process per sequence). Oracle: every execute returns within the time limit + 2.5 s; reply i belongs to request i (unique operands / payload checksum); normal and large requests succeed whatever preceded them; panic -> Error::Panic with the marker, overrun -> Timeout, memory/exit -> Crashed; after a fault the next reply comes from another process and the failed child is gone; no process of the group outlives the parent. Non-trivial = the sequence contains a fault followed by a request (all do); distinct by (sequence, gap)", self.lens.last().unwrap()),
+            rule: format!("every sequence of length <= {} over the ten request kinds {{normal, panic, overrun of the time limit by 10x, overrun by 1.5x (its reply arrives late), allocation beyond the memory limit, child exit, 2 MiB payload, panic with a 12 kB report in a four-byte script (also at each of the four byte alignments), request payload larger than the child's memory limit, small request with a 20 MiB reply}}, each followed by two normal requests, x gap in {{0 ms, 400 ms}} after each fault; plus every sequence over {{normal, slow-but-legal (200 ms), idle 1.5x the limit, idle 0.5x the limit}} followed by a slow and a normal request (idle time between requests must not count against the limit); plus every sequence over {{normal, legal 30 MiB allocation, growth of a 40 MiB buffer to 60 MiB through a fallible call that the 64 MiB limit refuses and the request reports itself}} followed by a 30 MiB allocation and a normal request (memory refused or given back must be available to later requests); run against the real rink_sandbox::Sandbox with real child processes (one parent process per sequence). Oracle: every execute returns within the time limit + 2.5 s; reply i belongs to request i (unique operands / payload checksum); normal and large requests succeed whatever preceded them; panic -> Error::Panic with the marker, overrun -> Timeout, memory/exit -> Crashed; after a fault the next reply comes from another process and the failed child is gone; no process of the group outlives the parent. Non-trivial = the sequence contains a fault followed by a request (all do); distinct by (sequence, gap)", self.lens.last().unwrap()),
             assumptions: vec![
                 format!("service time limit {} ms (hundreds of times a normal round trip); a sequence whose only anomaly is timing is re-run once alone before being believed", TIMEOUT_MS),
                 "child memory limit 64 MiB, RUST_BACKTRACE=0".into(),
             ],
             exhaustive: true,
-            extra: json!({"families": self.fams.summary(), "request_kinds": {"A": "normal add", "P": "panic", "S": "sleep 10x the limit", "L": "sleep 1.5x the limit (late reply)", "M": "allocate 4x the limit", "X": "exit(3)", "B": "2 MiB payload echo", "U": "panic with a long non-ASCII report", "1/2/3": "the same with 1/2/3 bytes of padding", "H": "80 MiB payload (beyond the child's 64 MiB)", "R": "small request, 20 MiB reply", "W": "sleep 200 ms (legal)", "G": "no request: idle 1.5x the limit", "g": "no request: idle 0.5x the limit"}}),
+            extra: json!({"families": self.fams.summary(), "request_kinds": {"A": "normal add", "P": "panic", "S": "sleep 10x the limit", "L": "sleep 1.5x the limit (late reply)", "M": "allocate 4x the limit", "X": "exit(3)", "B": "2 MiB payload echo", "U": "panic with a long non-ASCII report", "1/2/3": "the same with 1/2/3 bytes of padding", "H": "80 MiB payload (beyond the child's 64 MiB)", "R": "small request, 20 MiB reply", "W": "sleep 200 ms (legal)", "G": "no request: idle 1.5x the limit", "g": "no request: idle 0.5x the limit", "F": "allocate 30 MiB (legal)", "E": "try_reserve from 40 to 60 MiB (refused by the limit, answered -1)"}}),
         }
     }
     fn len(&self) -> u64 {
